@@ -25,6 +25,10 @@ type UnitOpts struct {
 	PostOnly  []string // if non-empty: only ensures with these labels
 	Frame     bool     // check the modifies clause
 	Asserts   bool
+	// AssertsOnly: only the assert@ clauses are obligations; callee preconditions, loop
+	// invariants and panic sites are assumed (a partial contract for functions that are
+	// mostly outside the subset: goroutines, channels, closures stored in the heap).
+	AssertsOnly bool
 }
 
 // VerifyFunc symbolically executes the function and returns the unit with
